@@ -1,4 +1,4 @@
-import LanceModel.C23.TableLemmas
+import LanceModel.C23.RemapLemmas
 /-! C23 — every operation keeps the index consistent with the rows -/
 namespace LanceModel.C23
 
@@ -126,7 +126,12 @@ theorem consistent_optimize (ops : CharOps) (ds : Ds) (h : Consistent ops ds) : 
       subst hix'
       obtain ⟨dW, hW, hW1, hW2⟩ := workerParts_repr (docsOf ops ds.cfg ds.rows
         (fun f => ((List.range ds.nfrags).filter (fun f => ds.liveFrag f && !ix.frags.contains f)).contains f))
-      obtain ⟨dM, hM, hM1, hM2⟩ := mergeAll_repr (reprAll_append hO hW)
+      obtain ⟨dM, hM, hM1, hM2⟩ : ∃ docss', ReprAll ((if ds.split then splitAll else mergeAll) (ix.parts ++ workerParts (docsOf ops ds.cfg ds.rows
+          (fun f => ((List.range ds.nfrags).filter (fun f => ds.liveFrag f && !ix.frags.contains f)).contains f)))) docss' ∧
+          (∀ doc, doc ∈ docss'.flatten → doc ∈ (dO ++ dW).flatten) ∧ (∀ doc ∈ (dO ++ dW).flatten, doc.toks ≠ [] → doc ∈ docss'.flatten) := by
+        cases ds.split
+        · exact mergeAll_repr (reprAll_append hO hW)
+        · exact splitAll_repr (reprAll_append hO hW)
       refine ⟨?_, dM, hM, ?_, ?_⟩
       · intro f hfm
         simp only [List.mem_append, List.mem_filter, List.mem_range] at hfm
@@ -168,6 +173,32 @@ theorem consistent_optimize (ops : CharOps) (ds : Ds) (h : Consistent ops ds) : 
           simp only [List.flatten_append, List.mem_append]
           exact Or.inr (hW2 _ hin hne)
 
+/-! ### compaction (index remap) -/
+
+theorem consistent_compact (ops : CharOps) (ds : Ds) (h : Consistent ops ds) : Consistent ops ds.compact := by
+  unfold Ds.compact
+  cases hix : ds.idx with
+  | none => simpa [hix] using h
+  | some ix =>
+    simp only []
+    obtain ⟨hf, dO, hO, hA, hB⟩ := h.idx ix hix
+    refine ⟨⟨h.wf.ids, h.wf.frags⟩, ?_⟩
+    intro ix' hix'
+    simp only [Option.some.injEq] at hix'
+    subst hix'
+    refine ⟨hf, _, reprAll_map_remap _ hO, ?_, ?_⟩
+    · intro doc hd
+      exact hA doc ((mem_flatten_map_filter _ _ doc).1 hd).1
+    · intro r hr hdel hc t ht hne
+      obtain ⟨doc, hd, hid⟩ := hB r hr hdel hc t ht hne
+      refine ⟨doc, (mem_flatten_map_filter _ _ doc).2 ⟨hd, ?_⟩, hid⟩
+      simp only [Bool.not_eq_true', List.any_eq_false, Bool.and_eq_true, beq_iff_eq, not_and, Bool.not_eq_true]
+      intro r' hr' hid'
+      have : r' = r := row_unique h.wf hr' hr (by rw [hid'.1, hid])
+      subst this
+      have := hid'.2
+      rw [hdel] at this; cases this
+
 theorem cfg_step (ops : CharOps) (ds : Ds) (op : Op) : (ds.step ops op).cfg = ds.cfg := by
   cases op with
   | append frags =>
@@ -181,6 +212,11 @@ theorem cfg_step (ops : CharOps) (ds : Ds) (op : Op) : (ds.step ops op).cfg = ds
       split <;> rfl
   | delete ids => rfl
   | index => rfl
+  | compact =>
+    simp only [Ds.step, Ds.compact]
+    cases ds.idx with
+    | none => rfl
+    | some ix => rfl
   | optimize =>
     simp only [Ds.step, Ds.optimize]
     cases ds.idx with
@@ -193,16 +229,19 @@ theorem consistent_step (ops : CharOps) (ds : Ds) (op : Op) (h : Consistent ops 
   | delete ids => exact consistent_delete ops ds ids h
   | index => exact consistent_index ops ds h
   | optimize => exact consistent_optimize ops ds h
+  | compact => exact consistent_compact ops ds h
 
 /-- along every history the index stays consistent with the rows -/
-theorem consistent_run (ops : CharOps) (cfg : Cfg) (history : List Op) : Consistent ops (Ds.run ops cfg history) := by
+theorem consistent_run (ops : CharOps) (cfg : Cfg) (history : List Op) (split : Bool := false) :
+    Consistent ops (Ds.run ops cfg history split) := by
   unfold Ds.run
-  suffices ∀ ds, Consistent ops ds → Consistent ops (history.foldl (Ds.step ops) ds) from this _ (consistent_init ops cfg)
+  suffices ∀ ds, Consistent ops ds → Consistent ops (history.foldl (Ds.step ops) ds) from this _ (consistent_init ops cfg split)
   induction history with
   | nil => intro ds h; exact h
   | cons op r ih => intro ds h; exact ih _ (consistent_step ops ds op h)
 
-theorem cfg_run (ops : CharOps) (cfg : Cfg) (history : List Op) : (Ds.run ops cfg history).cfg = cfg := by
+theorem cfg_run (ops : CharOps) (cfg : Cfg) (history : List Op) (split : Bool := false) :
+    (Ds.run ops cfg history split).cfg = cfg := by
   unfold Ds.run
   suffices ∀ ds, (history.foldl (Ds.step ops) ds).cfg = ds.cfg from this _
   induction history with
